@@ -267,5 +267,11 @@ theorem execOp_S {s : State} {me : Nat} (op : Op) (rest : List Op) (h : InvS s) 
   | exit =>
     simp only [execOp]
     exact ⟨h, fun _ => hr⟩
+  | throw =>
+    simp only [execOp]
+    exact ⟨(Woke.abort s).invS h, fun _ => (Woke.abort s).run hr⟩
+  | rcleanup =>
+    simp only [execOp]
+    exact ⟨(Woke.abort s).invS h, fun _ => (Woke.abort s).run hr⟩
 
 end Tbox.C18
